@@ -61,9 +61,9 @@ func c08Send(prefix, op string) string {
 	kind, id, parent, pts := c08Op(prefix, op)
 	var err error
 	if kind == "np" {
-		err = client.SendNodePoints(c08Srv.nc, id, pts, true)
+		err = noteTmo(client.SendNodePoints(c08Srv.nc, id, pts, true))
 	} else {
-		err = client.SendEdgePoints(c08Srv.nc, id, parent, pts, true)
+		err = noteTmo(client.SendEdgePoints(c08Srv.nc, id, parent, pts, true))
 	}
 	if err != nil {
 		return "err"
